@@ -159,7 +159,7 @@ static void obs_case(std::shared_ptr<crsd> A, const cfg &c, vr::rng &g, bool mma
     Eigen::MatrixXd E = Eigen::MatrixXd::Identity(n, n) - Bm * Am;
     double rho = Eigen::EigenSolver<Eigen::MatrixXd>(E, false).eigenvalues().cwiseAbs().maxCoeff();
     vr::obj o; o.str("k", "cycobs").str("fam", fam).i("n", n); put_cfg(o, c, access::nlevels(*amg), access::direct(*amg));
-    o.b("mmat", mmat).b("adjR", c.coarsening != "smoothed_aggr_emin").b("ilut", c.relax == "ilut");
+    o.b("finite", Bm.allFinite()).b("mmat", mmat).b("adjR", c.coarsening != "smoothed_aggr_emin").b("ilut", c.relax == "ilut");
     o.i("lin", mdec(std::max(lin, lin2) / std::max(sc, 1e-300))).b("hist", hist).b("scaled", scaled);
     o.i("sym", mdec(sym)).b("posdef", lmin > 0).i("lminrel", mdec(lmin / lmax)).i("rho", (long long)std::min(1e9, std::floor(rho * 1048576.0)));
     vr::emit(o.done());
